@@ -62,40 +62,46 @@ Theorem C20_proxy_only_on_request : forall (fs : str -> option str) v cfg segs,
   proxy cfg = true /\ exists s, request_of segs = Some s /\ (is_prefix s_CONNECT s = true \/ is_prefix s_GET s = true).
 Proof. exact proxy_only_on_request. Qed.
 
-(* C20_buffers_safe / C20_proxy_safe, full statement:
-     forall fs cfg segs e, display_fits cfg -> snd (http_process fs v_tree cfg segs) <> Crash e
-   is FALSE for the unchanged tree (see the two _refuted theorems).  It holds for the control flow with
-   the two proposed fixes (notes/fix_C20_1.diff, notes/fix_C20_2.diff): no buffer overrun, no read
-   beyond a terminator, no NULL dereference, no fuel exhaustion, for every request (any length) *)
-Theorem C20_buffers_safe_fixed : forall (fs : str -> option str) cfg segs e,
-  display_fits cfg -> snd (http_process fs v_fixed cfg segs) <> Crash e.
+(* C20_buffers_safe.  For the tree (since fix commits 057fee4 and 6ca4ce7): no buffer overrun
+   (buf, fullFname, params, param_request, param_formatted, str), no read beyond a terminator, no NULL
+   dereference, no fuel exhaustion, for every request (any length, any segmentation).  display_fits:
+   the $DISPLAY text fits str[] (true for every int port since thisHost is char[255]) *)
+Theorem C20_buffers_safe : forall (fs : str -> option str) cfg segs e,
+  display_fits cfg -> snd (http_process fs v_tree cfg segs) <> Crash e.
 Proof. exact fixed_never_crashes. Qed.
 
-(* unchanged tree: identical to the fixed variant unless one of the two defect sites is reached *)
-Theorem C20_tree_vs_fixed : forall (fs : str -> option str) cfg segs,
-  http_process fs v_tree cfg segs = ([], Crash NullDeref) \/
-  http_process fs v_tree cfg segs = ([], Crash UninitRead) \/
-  http_process fs v_tree cfg segs = http_process fs v_fixed cfg segs.
+(* C20_proxy_safe (and the parameter parser), without any hypothesis: CONNECT / GET / '?' forms can
+   never dereference NULL or read beyond a terminator; the only Crash value the tree's mirror can
+   produce at all is the $DISPLAY overflow excluded above *)
+Theorem C20_proxy_safe : forall (fs : str -> option str) cfg segs,
+  snd (http_process fs v_tree cfg segs) <> Crash NullDeref /\
+  snd (http_process fs v_tree cfg segs) <> Crash UninitRead.
+Proof. exact tree_proxy_params_safe. Qed.
+
+Theorem C20_crash_only_display : forall (fs : str -> option str) cfg segs e,
+  snd (http_process fs v_tree cfg segs) = Crash e -> e = Overflow 6.
+Proof. exact tree_crash_only_display. Qed.
+
+(* the flow before the fix commits (regression variant [v_prefix]): identical to the tree unless one of
+   the two defect sites is reached (then no effect has been produced yet) *)
+Theorem C20_prefix_vs_tree : forall (fs : str -> option str) cfg segs,
+  http_process fs v_prefix cfg segs = ([], Crash NullDeref) \/
+  http_process fs v_prefix cfg segs = ([], Crash UninitRead) \/
+  http_process fs v_prefix cfg segs = http_process fs v_tree cfg segs.
 Proof. exact tree_vs_fixed. Qed.
 
-Theorem C20_buffers_safe_partial : forall (fs : str -> option str) cfg segs e,
-  display_fits cfg ->
-  snd (http_process fs v_tree cfg segs) <> Crash NullDeref ->
-  snd (http_process fs v_tree cfg segs) <> Crash UninitRead ->
-  snd (http_process fs v_tree cfg segs) <> Crash e.
-Proof. exact tree_safe_partial. Qed.
-
-(* proxying enabled, "CONNECT \r\r" (no ':') and "GET \r\r" (no '/'): NULL dereference (F16) *)
-Theorem C20_proxy_safe_refuted : exists fs cfg,
+(* regression witnesses (corpus/C20/f16_*.script): before 057fee4, proxying enabled, "CONNECT \r\r"
+   (no ':') and "GET \r\r" (no '/'): NULL dereference (F16) *)
+Theorem C20_proxy_safe_prefix_refuted : exists fs cfg,
   display_fits cfg /\
-  snd (http_process fs v_tree cfg [Data req_connect]) = Crash NullDeref /\
-  snd (http_process fs v_tree cfg [Data req_get_noslash]) = Crash NullDeref.
+  snd (http_process fs v_prefix cfg [Data req_connect]) = Crash NullDeref /\
+  snd (http_process fs v_prefix cfg [Data req_get_noslash]) = Crash NullDeref.
 Proof. exact proxy_safe_refuted. Qed.
 
-(* "GET /?\r\r": strchr(&param_request[1], '=') starts beyond the terminator of an empty string *)
-Theorem C20_params_refuted : exists fs cfg,
+(* before 6ca4ce7, "GET /?\r\r": strchr(&param_request[1], '=') started beyond the terminator (F16b) *)
+Theorem C20_params_prefix_refuted : exists fs cfg,
   display_fits cfg /\ proxy cfg = false /\
-  snd (http_process fs v_tree cfg [Data req_empty_param]) = Crash UninitRead.
+  snd (http_process fs v_prefix cfg [Data req_empty_param]) = Crash UninitRead.
 Proof. exact params_refuted. Qed.
 
 (* what $PARAMS is replaced by: PARAM tags whose names and values use only [A-Za-z0-9_.:\[\] ] *)
